@@ -126,14 +126,16 @@ def request (s : Screen) (c : Client) (incr : Bool) (x y w h : Int) : Client :=
 /-- SetEncodings as far as update scheduling is concerned: the flag handling in the loop over
 the encodings -/
 def setEncodings0 (s : Screen) (c : Client) (copyRect cursorShape : Bool) : Client :=
-  let c := { c with useCopyRect := copyRect, cursorShape := false, cursorChanged := false }
-  if cursorShape then
-    -- `if(!cl->enableCursorShapeUpdates) rfbRedrawAfterHideCursor(cl,NULL)`
-    let m := match cursorBox s c.cursorX c.cursorY with
-      | some b => c.M.or b
-      | none => c.M
-    { c with M := m, cursorShape := true, cursorChanged := true }
-  else c
+  -- the cursor box is marked when cursor-shape updates are (re-)enabled
+  -- (`if(!cl->enableCursorShapeUpdates) rfbRedrawAfterHideCursor(cl,NULL)` after the flag reset)
+  -- and when a client that had them drops them (`hadCursorShapeUpdates && !enable…`)
+  let addBox := cursorShape || c.cursorShape
+  let m := if addBox then
+      (match cursorBox s c.cursorX c.cursorY with
+       | some b => c.M.or b
+       | none => c.M)
+    else c.M
+  { c with useCopyRect := copyRect, cursorShape := cursorShape, cursorChanged := cursorShape, M := m }
 
 /-- the tail of the SetEncodings handler: a client that no longer accepts CopyRect gets what is
 still scheduled as a copy as pixel data -/
